@@ -566,6 +566,44 @@ def norm_key(k):
     return k.lstrip("&")
 
 
+def insert_at_search_result(body, t):
+    """v.insert(pos, x) where pos is the Err (or Ok) payload of v.binary_search*(..): 0 <= pos <= v.len() by the contract
+    of binary_search, so the insertion cannot be out of bounds (the search result is consumed straight away: the
+    statement that binds pos and the insertion are the two arms' only use of it)"""
+    p = op_place(t["args"][1])
+    depth = 0
+    while p is not None and not p["p"] and depth < 6:
+        ds = [d for d in body.defs().get(p["l"], []) if d[2] != "partial"]
+        if len(ds) != 1 or ds[0][2] != "assign" or ds[0][3]["r"] != "use":
+            return None
+        p = op_place(ds[0][3]["o"])
+        depth += 1
+    if p is None:
+        return None
+    proj = p["p"]
+    if not (len(proj) == 2 and isinstance(proj[0], dict) and proj[0].get("n") in ("Err", "Ok") and isinstance(proj[1], dict) and proj[1].get("f") == 0):
+        return None
+    sd = body.single_def(p["l"])
+    if sd is None or sd[2] != "call":
+        return None
+    decl, res, info = callee_of(sd[3])
+    if not re.search(r"::binary_search(_by|_by_key)?$", decl or "") or not sd[3].get("args"):
+        return None
+
+    def base(k):
+        k = norm_key(k)
+        m = re.match(r"^(Deref::deref|DerefMut::deref_mut|Cow::to_mut|Vec::as_slice|Vec::as_mut_slice|SmallVec::as_slice)\(&?(.*)\)$", k)
+        while m:
+            k = norm_key(m.group(2))
+            m = re.match(r"^(Deref::deref|DerefMut::deref_mut|Cow::to_mut|Vec::as_slice|Vec::as_mut_slice|SmallVec::as_slice)\(&?(.*)\)$", k)
+        return k
+    searched = base(body.key_of_operand(sd[3]["args"][0]))
+    target = base(body.key_of_operand(t["args"][0]))
+    if searched == target and searched not in ("?", ""):
+        return "insertion index is the result of binary_search on the same vector (%s): within 0..=len" % searched
+    return None
+
+
 def discharged(body, src, facts=None, prog=None):
     """returns a reason string if an idiom proves the panic source dead, else None"""
     t = src["term"]
@@ -618,6 +656,8 @@ def discharged(body, src, facts=None, prog=None):
         return None
     if kind == "index" and src["what"].startswith("str["):
         return slice_discharge(body, src, prefix_facts_cached(body), prog)
+    if kind == "container" and src["what"].split("::")[-1] == "insert" and len(t.get("args", [])) >= 2:
+        return insert_at_search_result(body, t)
     if kind == "unwrap":
         if not t.get("args"):
             return None
